@@ -1,4 +1,5 @@
 import Proofs.C11
+import Proofs.Gen
 #print axioms Xsel.C11.principalNamed_iff
 #print axioms Xsel.C11.nametest_by_uri
 #print axioms Xsel.C11.nametest_name
@@ -18,3 +19,4 @@ import Proofs.C11
 #print axioms Xsel.C11.unknown_function_is_error
 #print axioms Xsel.C11.fn_unbound_prefix_is_error
 #print axioms Xsel.C11.args_evaluated_in_order
+#print axioms Xsel.Gen.no_shared_writes
